@@ -154,6 +154,10 @@ func (i *IndexSnapshotTermFieldReader) postingToTermFieldDoc(next segment.Postin
 }
 
 func (i *IndexSnapshotTermFieldReader) Advance(ID index.IndexInternalID, preAlloced *index.TermFieldDoc) (*index.TermFieldDoc, error) {
+	if len(i.snapshot.segment) == 0 {
+		// nothing to advance over in a snapshot without segments
+		return nil, nil
+	}
 	// FIXME do something better
 	// for now, if we need to seek backwards, then restart from the beginning
 	if i.currPosting != nil && i.currID.Compare(ID) >= 0 {
